@@ -185,7 +185,7 @@ def run(ctx):
         if r[0] != 'ok':
             continue
         d = to_diffentry_dicts(copy.deepcopy(r[1]))
-        tool = ['git', 'diff', 'difflib'][(t // 3) % 3 if captured else t % 3]
+        tool = ['git', 'diff', 'difflib'][(t // 3) % 3]
         data = {'a': enc(a), 'b': enc(b), 'ignored': [], 'use_color': False, 'color_words': False, 'tool': tool}
         ctx.count('changed-line:' + tool + (':captured-diff-text' if captured else ''))
         ctx.case('L' + canon(a) + canon(b) + tool, True)
@@ -197,6 +197,27 @@ def run(ctx):
         for text, marks, what in [(x, '-<', 'removed') for x in removed] + [(x, '+>', 'added') for x in added]:
             if not any(ln[:1] in marks and text in ln[1:] for ln in body):
                 ctx.violation('the %s source line %r is not shown by the %s renderer' % (what, text, tool), dict(data, kind='line-not-shown', line=text))
+    # every renderer x colour x colour-words combination on a multi-line source change and a multi-line stream change
+    for tool in ('git', 'diff', 'difflib'):
+        for use_color in (False, True):
+            for color_words in (False, True):
+                lines = ['alpha = %d' % rng.randrange(100), 'beta = alpha + %d' % rng.randrange(100), 'print(alpha, beta)', 'gamma = %d' % rng.randrange(9)]
+                a = {'nbformat': 4, 'nbformat_minor': 5, 'metadata': {}, 'cells': [{'cell_type': 'code', 'id': 'c1', 'metadata': {}, 'execution_count': 1,
+                     'outputs': [{'output_type': 'stream', 'name': 'stdout', 'text': 'first line\nsecond line\nthird line\n'}], 'source': ''.join(x + '\n' for x in lines)}]}
+                b = copy.deepcopy(a)
+                b['cells'][0]['source'] = ''.join(x + '\n' for x in [lines[0], 'beta = alpha * 2', 'print(beta)', lines[3], 'delta = 1'])
+                b['cells'][0]['outputs'][0]['text'] = 'first line\nsecond LINE changed\nthird line\nfourth\n'
+                r, _ = c01.impl_diffnb(a, b)
+                if r[0] != 'ok':
+                    continue
+                d = to_diffentry_dicts(copy.deepcopy(r[1]))
+                data = {'a': enc(a), 'b': enc(b), 'ignored': [], 'use_color': use_color, 'color_words': color_words, 'tool': tool}
+                ctx.count('combo:%s/%s/%s' % (tool, use_color, color_words))
+                ctx.case('C' + canon(a) + canon(b) + json.dumps([tool, use_color, color_words]), True)
+                out = render(ctx, 'pretty_print_notebook_diff', lambda cfg: pp.pretty_print_notebook_diff('a.ipynb', 'b.ipynb', nbformat.from_dict(copy.deepcopy(a)), d, cfg),
+                             make_cfg(0, use_color, color_words, tool), data)
+                if out is not None and len(out.splitlines()) <= 3:
+                    ctx.violation('a diff touching sources and outputs prints nothing beyond the header', dict(data, kind='silent', diff=vlib.enc_diff(r[1])))
     # CLI legs: exit status and no ANSI with --no-color
     env = dict(os.environ, PYTHONPATH=vlib.REPO)
     with tempfile.TemporaryDirectory(prefix='verif-c16-') as td:
